@@ -5,3 +5,5 @@ export VERIF_ROOT="${VERIF_ROOT:-$(cd "$(dirname "${BASH_SOURCE[0]}")/.." && pwd
 export GOFLAGS=-mod=mod GOPROXY=off GOTOOLCHAIN=auto
 unset GOSUMDB GONOSUMDB GONOSUMCHECK GOFLAGS_EXTRA
 export CARGO_NET_OFFLINE=true PIP_NO_INDEX=1
+# the tree under verification (registered commands always use /repo; development copies may point elsewhere)
+export VERIF_REPO="${VERIF_REPO:-/repo}"
